@@ -251,7 +251,7 @@ def case_fext(c, rng, tier):
         W, S = virtual_work(cc, d, loads, cfull, inc)
         got = float(f_loads @ cu)
         sc = S + float(np.abs(f_loads) @ np.abs(cu)) + float(np.abs(pres) @ np.abs(cu)) * 1e-6 if ex else S + float(np.abs(f_loads) @ np.abs(cu))
-        c.judge('fext.c_u equals the virtual work of point forces, axial load, pressure and torque on the reported field', abs(got - W), 1e-9 * sc + 1e-300,
+        c.judge('fext.c_u equals the virtual work of point forces, axial load, pressure and torque on the reported field', abs(got - W), 3e-9 * sc + 1e-300,
                 data={'got': got, 'work': W, 'kinds': kinds})
     # incremental parts scale with the load factor: fext is affine in inc
     f0 = np.asarray(build_loaded(d, loads).calc_fext(inc=0., silent=True))
